@@ -142,7 +142,7 @@ class G:
         return self.r.pick(["a", "x", "n"])
 
     def matom_simple(self):
-        return self.r.pick(["a", "b", "x", "2", "(a b)", "n", "alpha"])
+        return self.r.pick(["a", "b", "x", "2", "(a b)", "n", "alpha", "#(1)x", "#(n)", "#(-1)b"])
 
     def msp(self, allow_none):
         r = self.r.below(16)
@@ -250,7 +250,7 @@ class G:
         if r < 3:
             return "let " + self.r.pick(["x", "(a, b)", "f(x)", "(a, ..r)", "_"]) + g.sp(False) + "=" + g.sp(False) + g.expr()
         if r < 4:
-            return "set text(" + g.arg() + ")"
+            return "set text(" + g.arg() + ")" + self.r.pick(["", "", "", "[x]", "[#x][y]", "[]"])
         if r < 5:
             return "show " + self.r.pick(["heading", "raw.where(block: true)", ""]) + ": " + g.expr()
         if r < 6:
